@@ -63,9 +63,21 @@ type Base struct {
 }
 
 func cmdEvents(name string, ow bool, t *Tap, err error, crashed bool) []Event {
+	return cmdEventsSov(name, ow, 0, t, err, crashed)
+}
+
+// cmdEventsSov: sov is the rotate serial override (0 = none).
+func cmdEventsSov(name string, ow bool, sov int, t *Tap, err error, crashed bool) []Event {
 	o := "-"
 	if ow {
 		o = "ow"
+	}
+	// the spec's Params format "<ow|->,<serial flag>,<time class>": these drivers use the default
+	// serials (bootstrap: signing serial 2, rotate: no override) and time class 1
+	if name == "bootstrap" {
+		o += ",2,1"
+	} else {
+		o += fmt.Sprintf(",%d,1", sov)
 	}
 	evs := []Event{{"Cmd", name, o}}
 	evs = append(evs, t.Events...)
